@@ -21,7 +21,7 @@ pub(crate) struct C18 {
     pub id: &'static str,
 }
 
-const TEMPLATES: &[&str] = &["nick_race_unreg", "first_join", "limit_slot", "oper_in_flight", "kick_part_nick", "msg_streams", "nick_race_reg", "invite_join", "password_reg_race", "mixed", "random", "random", "random", "random", "topic_mode_race", "kill_vs_leave", "leave_vs_nick_claim", "kill_vs_leave", "leave_vs_nick_claim", "counter_race", "password_burst", "reader_vs_writer", "reader_vs_writer"];
+const TEMPLATES: &[&str] = &["nick_race_unreg", "first_join", "limit_slot", "oper_in_flight", "kick_part_nick", "msg_streams", "nick_race_reg", "invite_join", "password_reg_race", "mixed", "random", "random", "random", "random", "topic_mode_race", "kill_vs_leave", "leave_vs_nick_claim", "kill_vs_leave", "leave_vs_nick_claim", "counter_race", "password_burst", "reader_vs_writer", "reader_vs_writer", "wallops_order"];
 
 fn esc_lines(v: &[String]) -> String {
     v.join("\u{1e}")
@@ -74,7 +74,7 @@ impl Check for C18 {
             "C08" => vec!["topic_mode_race", "kick_part_nick", "mixed", "topic_mode_race"],
             "C09" => vec!["kick_part_nick", "invite_join", "topic_mode_race", "leave_vs_nick_claim"],
             "C10" => vec!["msg_streams", "topic_mode_race", "mixed", "kill_vs_leave"],
-            "C11" => vec!["oper_in_flight", "kill_vs_leave", "counter_race", "oper_in_flight"],
+            "C11" => vec!["oper_in_flight", "kill_vs_leave", "counter_race", "wallops_order"],
             "C15" => vec!["nick_race_reg", "leave_vs_nick_claim", "kick_part_nick", "password_reg_race"],
             "C16" => vec!["first_join", "kill_vs_leave", "leave_vs_nick_claim", "kick_part_nick"],
             "C04" => vec!["kick_part_nick", "leave_vs_nick_claim", "first_join", "kill_vs_leave", "reader_vs_writer"],
@@ -209,6 +209,28 @@ impl Check for C18 {
                     scripts.push((regs[1], vec![w1[r.below(w1.len())].clone(), w1[r.below(w1.len())].clone()]));
                     let w2 = [format!("MODE {} +i", n2), "JOIN #rw1".to_string(), "PART #rw2".to_string(), "AWAY :gone".to_string()];
                     scripts.push((regs[2], vec![w2[r.below(w2.len())].clone()]));
+                }
+            }
+            "wallops_order" => {
+                // an operator's WALLOPS and direct messages to a +w user, numbered: they arrive in the order sent, also
+                // while the receiver toggles +w or somebody renames
+                if regs.len() >= 2 {
+                    let n1 = nick_of(&g, regs[1]);
+                    g.say(regs[0], "OPER root rootpw");
+                    g.say(regs[1], &format!("MODE {} +w", n1));
+                    let mut s0 = vec![];
+                    for _ in 0..r.range(2, 4) {
+                        if r.chance(1, 2) {
+                            s0.push(format!("WALLOPS :to all s{}", num(&mut seqno)));
+                        } else {
+                            s0.push(format!("PRIVMSG {} :direct s{}", n1, num(&mut seqno)));
+                        }
+                    }
+                    scripts.push((regs[0], s0));
+                    scripts.push((regs[1], vec![["PING still".to_string(), "AWAY :brb".to_string(), "JOIN #wo".to_string()][r.below(3)].clone()]));
+                    if regs.len() >= 3 {
+                        scripts.push((regs[2], vec!["NICK womoved".to_string(), format!("PRIVMSG {} :third s{}", n1, num(&mut seqno))]));
+                    }
                 }
             }
             "counter_race" => {
@@ -700,12 +722,15 @@ async fn exec_inner(t: Trace, prop: &'static str) -> Outcome {
         let mut last: HashMap<String, u32> = HashMap::new();
         for l in s {
             if let Some(p) = irc::parse(&l.replace('\u{1f}', " ")) {
-                if p.cmd == "PRIVMSG" {
+                if p.cmd == "PRIVMSG" || p.cmd == "NOTICE" || p.cmd == "WALLOPS" {
                     if let (Some(src), Some(word)) = (p.source.clone(), l.rsplit(' ').next()) {
                         if let Some(n) = word.strip_prefix('s').and_then(|x| x.parse::<u32>().ok()) {
-                            let key = format!("{}>{}", src, p.p(0));
+                            // whatever the target (channel, nickname, the +w audience): one sender's numbered messages reach
+                            // one receiver in the order they were sent
+                            let key = src.clone();
                             if let Some(prev) = last.get(&key) {
-                                if n <= *prev {
+                                // (equal numbers: one command with several targets reaching the same receiver)
+                                if n < *prev {
                                     out.violation = Some(mk("order", "message_order".into(), format!("connection {} received {}'s messages out of order: s{} after s{}", c, src, n, prev)));
                                     return out;
                                 }
